@@ -10,7 +10,10 @@ CASE_TIMEOUT = 30.0
 RULE = ('"w" cases: strictly monotonic source coordinate (1..7 levels, ascending or descending; exact stream: power-of-two spacings times '
         '2^ue so that scipy/numpy binary64 arithmetic is exact) and 1..6 target points at source points, between them, at the ends and '
         'outside (extrapolate True/False); observed: the getinterpweights matrix as exact fractions and interpDimension of a 1-D and a 2-D '
-        'variable along the named dimension (either axis). "s" cases: descending sigma edges (1..6 layers, power-of-two thicknesses) against '
+        'variable along the named dimension (either axis). "nd" cases: interpDimension with a 2-D / 3-D coordinate variable (layouts (z,k), '
+        '(k,z), (i,z,k)): every column has its own source and target levels, neighbouring columns often share the source levels but differ in '
+        'the targets (and vice versa), some columns have target == source; per column the interpolated coordinate, a linear profile and an '
+        'arbitrary profile are compared exactly with the model and judged for linear exactness / identity. "s" cases: descending sigma edges (1..6 layers, power-of-two thicknesses) against '
         'target edges that coincide, interleave, share top and bottom, cover a sub-range or stick out; observed: sigma2coeff as exact fractions '
         'and ioapi_base.interpSigma(conserve / linear) column integrals. Both evaluated in Coq against Model/Interp.v. "wf"/"sf" float streams: '
         'arbitrary spacings, decided by the rational oracle with tolerance 1e-12 (weights) / 2e-6 (float32 file data). Non-trivial = some '
@@ -50,6 +53,10 @@ def _targets(rng, xs, k):
 def gen(rng, n, tier):
     out = []
     while len(out) < n:
+        r = rng.random()
+        if r < 0.22:
+            out.append(_gen_nd(rng))
+            continue
         r = rng.random()
         if r < 0.45:
             nl = rng.choice([1] + [2, 3, 4, 5, 6, 7] * 4) if tier != 'search' else rng.randint(2, 7)
@@ -106,7 +113,104 @@ def gen(rng, n, tier):
     return out
 
 
+def _gen_nd(rng):
+    """interpDimension with an N-D coordinate: one source column and one target column per remaining index.
+    Neighbouring columns often share the source levels but have different targets (and vice versa)."""
+    layout = rng.choice(['zk', 'kz', 'izk'])
+    n = rng.randint(2, 5)
+    m = n if rng.random() < 0.3 else rng.randint(1, 4)
+    ni = rng.randint(1, 2) if layout == 'izk' else 1
+    nk = rng.randint(2, 4) if layout != 'izk' else rng.randint(2, 3)
+    cols = []
+    xs = _mono_pow2(rng, n, 0, 4)
+    for c in range(ni * nk):
+        r = rng.random()
+        if c > 0 and r < 0.65:
+            pass                                  # same source levels as the previous column
+        elif r < 0.85:
+            xs = _mono_pow2(rng, n, 0, 4)
+        else:
+            xs = _mono_pow2(rng, n, 0, 4)[::-1]
+        lo, hi = min(xs), max(xs)
+        if m == n and rng.random() < 0.35:
+            nxs = list(xs)                        # target == source in this column
+        elif rng.random() < 0.75:
+            nxs = sorted(rng.randint(lo, hi) for _ in range(m))
+        else:
+            nxs = sorted(rng.randint(lo - 5, hi + 5) for _ in range(m))
+        cols.append(dict(xs=list(xs), nxs=nxs, arb=[rng.randint(-64, 64) for _ in range(n)]))
+    return dict(kind='nd-' + layout, ue=rng.randint(-10, 4), layout=layout, ni=ni, nk=nk, cols=cols,
+                extrap=rng.random() < 0.3, lin=[rng.randint(-5, 5), rng.randint(-20, 20)])
+
+
 # ----------------------------------------------------------------------------- implementation side
+def _nd_arrays(case, key, length):
+    import numpy as np
+    ni, nk, lay = case['ni'], case['nk'], case['layout']
+    a = np.zeros((ni, length, nk))
+    for c, col in enumerate(case['cols']):
+        a[c // nk, :, c % nk] = col[key]
+    if lay == 'zk':
+        return a[0]
+    if lay == 'kz':
+        return a[0].T
+    return a
+
+
+def _nd_columns(case, arr):
+    """columns of a result array in the order the library processes them"""
+    import numpy as np
+    lay, nk = case['layout'], case['nk']
+    arr = np.asarray(arr, dtype='d')
+    if lay == 'zk':
+        arr = arr[None]
+    elif lay == 'kz':
+        arr = arr.T[None]
+    return [arr[c // nk, :, c % nk] for c in range(len(case['cols']))]
+
+
+def _interp_nd(case):
+    import numpy as np
+    from PseudoNetCDF import PseudoNetCDFFile
+    ue = case['ue']
+    dims = {'zk': ('z', 'k'), 'kz': ('k', 'z'), 'izk': ('i', 'z', 'k')}[case['layout']]
+    n, m = len(case['cols'][0]['xs']), len(case['cols'][0]['nxs'])
+    a, b = case['lin']
+    for c in case['cols']:
+        c['lin'] = [a * x + b for x in c['xs']]
+    f, g = PseudoNetCDFFile(), PseudoNetCDFFile()
+    for fl, ln in ((f, n), (g, m)):
+        fl.createDimension('z', ln)
+        fl.createDimension('k', case['nk'])
+        if case['layout'] == 'izk':
+            fl.createDimension('i', case['ni'])
+    src = np.ldexp(_nd_arrays(case, 'xs', n), ue)
+    for name, key in (('zc', 'xs'), ('lin', 'lin'), ('arb', 'arb')):
+        v = f.createVariable(name, 'd', dims)
+        v[:] = np.ldexp(_nd_arrays(case, key, n), ue) if name != 'arb' else _nd_arrays(case, key, n)
+    o = f.createVariable('other', 'd', ('k',))
+    o[:] = np.arange(case['nk']) + 0.5
+    tv = g.createVariable('zc', 'd', dims)
+    tv[:] = np.ldexp(_nd_arrays(case, 'nxs', m), ue)
+    before = src.copy()
+    outf = f.interpDimension('z', tv, coordkey='zc', extrapolate=case['extrap'])
+    res = dict(other_ok=bool((np.asarray(outf.variables['other'][:]) == np.arange(case['nk']) + 0.5).all()),
+               src_ok=bool((np.asarray(f.variables['zc'][:]) == before).all()), cols=[])
+    per = {name: _nd_columns(case, outf.variables[name][:]) for name in ('zc', 'lin', 'arb')}
+    for c in range(len(case['cols'])):
+        d = {}
+        for name in ('zc', 'lin', 'arb'):
+            vals = per[name][c]
+            if not np.isfinite(vals).all():
+                d[name] = None
+            else:
+                # zc and lin carry the unit 2^ue: report in the unit
+                sc = -ue if name != 'arb' else 0
+                d[name] = [[Fraction(float(np.ldexp(v, sc))).numerator, Fraction(float(np.ldexp(v, sc))).denominator] for v in vals]
+        res['cols'].append(d)
+    return res
+
+
 def _frac_rows(a):
     return [[[Fraction(float(v)).numerator, Fraction(float(v)).denominator] for v in row] for row in a]
 
@@ -168,6 +272,8 @@ def impl(case):
     import numpy as np
     from PseudoNetCDF.coordutil import getinterpweights, sigma2coeff
     with np.errstate(all='ignore'):
+        if case['kind'].startswith('nd'):
+            return _interp_nd(case)
         if case['kind'].startswith('w'):
             if case.get('fl'):
                 xs = np.array([float.fromhex(h) for h in case['xs_hex']])
@@ -215,6 +321,18 @@ def _frl(l):
 def coq_term(case, obs):
     if case.get('fl') or 'raises' in obs:
         return None
+    if case['kind'].startswith('nd'):
+        a, b = case['lin']
+        cols = []
+        for col, oc in zip(case['cols'], obs['cols']):
+            vs = []
+            for name, tag, data in (('zc', '(Some (1, 0))', col['xs']),
+                                    ('lin', '(Some (%s, %s))' % (C.zc(a), C.zc(b)), [a * x + b for x in col['xs']]),
+                                    ('arb', 'None', col['arb'])):
+                out = _frl(oc[name]) if oc[name] is not None else '[]'
+                vs.append('(%s, %s, %s)' % (tag, C.zlist(data), out))
+            cols.append('(%s, %s, [%s])' % (C.zlist(col['xs']), C.zlist(col['nxs']), '; '.join(vs)))
+        return '(KN %s [%s])' % (C.cbool(case['extrap']), '; '.join(cols))
     if case['kind'].startswith('w'):
         if obs['W'] is None:
             w = 'None'
@@ -283,6 +401,32 @@ def py_check(case, obs):
         if case['kind'] == 's-outside' and not all(case['fr'][-1] <= v <= case['fr'][0] for v in case['to']):
             return dict(s_ok=True, region=0, why='')       # target sticks out of the source column: outside the stated domain
         return dict(s_ok=False, region=0, why='raised ' + str(obs.get('raises')) + ': ' + str(obs.get('msg')))
+    if case['kind'].startswith('nd'):
+        # independent per-column oracle: the output must be the hat-function interpolation of that column's OWN
+        # source/target pair
+        why = []
+        a, b = case['lin']
+        for ci, (col, oc) in enumerate(zip(case['cols'], obs['cols'])):
+            xs = [Fraction(v) for v in col['xs']]
+            lo, hi = min(xs), max(xs)
+            for name, data in (('zc', col['xs']), ('lin', [a * x + b for x in col['xs']]), ('arb', col['arb'])):
+                if oc[name] is None:
+                    why.append('column %d %s: non-finite' % (ci, name))
+                    continue
+                for x, (p, q) in zip(col['nxs'], oc[name]):
+                    w = _hat_oracle(xs, Fraction(x))
+                    if not case['extrap']:
+                        w = [max(Fraction(0), v) for v in w]
+                        t = sum(w)
+                        w = [v / t for v in w]
+                    exp = sum(wi * di for wi, di in zip(w, data))
+                    if Fraction(p, q) != exp:
+                        why.append('column %d %s at %s: got %s, expected %s' % (ci, name, x, float(Fraction(p, q)), float(exp)))
+        res = dict(s_ok=not why, region=0, why='; '.join(why[:3]))
+        if not (obs.get('other_ok') and obs.get('src_ok')):
+            res['f_ok'] = False
+            res['why'] += '; a variable without the coordinate dimensions, or the source coordinate, was changed'
+        return res
     if case['kind'].startswith('w'):
         if case.get('fl'):
             xs = [Fraction(float.fromhex(h)) for h in case['xs_hex']]
@@ -358,6 +502,9 @@ def py_check(case, obs):
 def nontrivial(case, obs):
     if 'raises' in obs:
         return False
+    if case['kind'].startswith('nd'):
+        return any(oc['arb'] is not None and any(q != 1 for p, q in oc['arb']) for oc in obs['cols']) or \
+            any(c['nxs'] != c['xs'] for c in case['cols'])
     if case['kind'].startswith('w'):
         if case.get('fl'):
             return any(0 < float.fromhex(h) < 1 for col in obs['W'] for h in col)
@@ -369,6 +516,15 @@ def nontrivial(case, obs):
 
 def shrink(case):
     if case.get('fl'):
+        return
+    if case['kind'].startswith('nd'):
+        if case['layout'] != 'izk' and case['nk'] > 2:
+            for k in range(case['nk']):
+                yield dict(case, nk=case['nk'] - 1, cols=case['cols'][:k] + case['cols'][k + 1:])
+        m = len(case['cols'][0]['nxs'])
+        if m > 1:
+            for k in range(m):
+                yield dict(case, cols=[dict(c, nxs=c['nxs'][:k] + c['nxs'][k + 1:]) for c in case['cols']])
         return
     if case['kind'].startswith('w'):
         if len(case['nxs']) > 1:
